@@ -1857,7 +1857,7 @@ mod extra {
     /// two fingerprints; the remote is a snow responder whose prologue is computed from ITS view
     /// of the fingerprints (fpmode 0: the same pair; others: a differing pair).
     pub fn run_kind8(rt: &tokio::runtime::Runtime, p: &[u64]) -> Option<(Vec<u64>, Vec<u64>)> {
-        if p.len() != 4 || p[1] == 0 || p[1] >= NKINDS || p[3] > 5 {
+        if p.len() != 4 || p[1] == 0 || p[1] >= NKINDS || p[3] > 7 {
             return None;
         }
         let (seed, fkind, variant, fpmode) = (p[0], p[1], p[2], p[3]);
@@ -1876,10 +1876,15 @@ mod extra {
             2 => their_remote[rng.below(32) as usize] ^= 1 << rng.below(8),
             3 => std::mem::swap(&mut their_local, &mut their_remote),
             4 => their_remote = rand_bytes(&mut rng, 32),
-            _ => their_local.truncate(31),
+            5 => their_local.truncate(31),
+            _ => {}
         }
         // the remote (client) computes "libp2p-webrtc-noise:" ++ client fp ++ server fp
-        let pro_r = [b"libp2p-webrtc-noise:".as_slice(), &their_local, &their_remote].concat();
+        let pro_r = match fpmode {
+            6 => Vec::new(),                          // a remote that uses no prologue at all
+            7 => b"libp2p-webrtc-noise:".to_vec(),    // ... or only the prefix
+            _ => [b"libp2p-webrtc-noise:".as_slice(), &their_local, &their_remote].concat(),
+        };
         let replay = if fkind == 21 { honest_pair(rt, &mut rng, variant % 2, 0).0 } else { Vec::new() };
         let builder = snow_builder();
         let kp = builder.generate_keypair().ok()?;
@@ -1929,7 +1934,7 @@ mod extra {
             run(&[9, 3, 6910 + m, 2, m]);
         }
         for fk in 1..NKINDS {
-            for fp in 0..6u64 {
+            for fp in 0..8u64 {
                 run(&[8, 4, 6000 + fk * 8 + fp, fk, fp + fk, fp]);
             }
             run(&[8, 4, 6500 + fk, fk, fk, 0]);
@@ -1944,7 +1949,7 @@ mod extra {
                 run(&[7, 3, seed, if rng.chance(30) { 17 } else { rng.below(18) }, rng.below(1 << 12)]);
             } else {
                 let fk = if rng.chance(40) { 1 } else { 1 + rng.below(NKINDS - 1) };
-                run(&[8, 4, seed, fk, rng.below(1 << 12), if rng.chance(50) { 0 } else { rng.below(6) }]);
+                run(&[8, 4, seed, fk, rng.below(1 << 12), if rng.chance(50) { 0 } else { rng.below(8) }]);
             }
         }
     }
